@@ -58,6 +58,14 @@ struct Local {
 
 /// characters representable in E, found by decoding random bytes
 fn draw_chars(e: &'static Encoding, r: &mut Rng, n: usize, avoid_trail_5d: bool) -> String {
+    if n > 40 {
+        // long payloads: draw a few characters and repeat them in random order
+        let base: Vec<char> = draw_chars(e, r, 12, avoid_trail_5d).chars().collect();
+        if base.is_empty() {
+            return String::new();
+        }
+        return (0..n).map(|_| base[r.below(base.len())]).collect();
+    }
     let mut out = String::new();
     let mut tries = 0;
     while out.chars().count() < n && tries < 400 {
